@@ -177,3 +177,17 @@ package inhibit
 //@                                     && (forall n model.LabelName :: n in r.Equal ==> lval(r.scache.alerts[f].Labels, n) == lval(L, n)))
 //@      ==> (exists f model.Fingerprint :: inIdx(r.sindex, eqFP(r, L), f) && inhibitor(r, f, L, ex, now)))
 //@   props C03
+
+// C03: building the inhibitor: every configured rule becomes a rule of the inhibitor, in order - also one whose name
+// repeats an earlier rule's (the name is only logged); each is what NewInhibitRule made of the rule at that position.
+//@ func NewInhibitor
+//@   props C03
+//@   requires logger != nil
+//@   ensures [a-rule-per-configured-rule] result != nil && fresh(result) && len(result.rules) == len(rs) && count("NewInhibitRule") == len(rs)
+//@   ensures [loading-gate-armed-once] count("WaitGroup).Add") == 1
+//@   ensures [rules-usable] forall k int :: 0 <= k && k < len(result.rules) ==> result.rules[k] != nil && result.rules[k].scache != nil && result.rules[k].sindex != nil
+//@   at call NewInhibitRule assert [built-from-the-rule-at-its-position] arg0.Name == rs[count("NewInhibitRule")].Name && len(arg0.SourceMatchers) == len(rs[count("NewInhibitRule")].SourceMatchers) && len(arg0.Equal) == len(rs[count("NewInhibitRule")].Equal)
+//@   loop 1 invariant rangeindex < len(rs) && fresh(ih) && len(ih.rules) == rangeindex + 1 && count("NewInhibitRule") == rangeindex + 1 && (ih.rules == nil || fresh(ih.rules))
+//@   loop 1 invariant forall k int :: 0 <= k && k < len(ih.rules) ==> ih.rules[k] != nil && ih.rules[k].scache != nil && ih.rules[k].sindex != nil
+//@   assigns nothing
+//@   noeffect GetTextMapPropagator
